@@ -3,7 +3,21 @@ import SJ.Proofs.Escape
 set_option linter.unusedVariables false
 /-
 `StrFacts`: the RFC 8259 string production (`Spec.stringBody`) against `closeQ` and the model of the assembly's
-string decoder (`decodeString`).
+string decoder (`decodeString`).  Result: `SJ.ParseDefs.strFacts : StrFacts` (both fields, no restriction).
+
+  * `go_succ`            `decodeStringGo (f+1) = goBody … (decodeStringGo f)`.  Lean cannot generate the equation
+                         lemmas of `decodeStringGo` (unfolding whnf's `encodeUTF8 (x + 0x10000)`), hence the
+                         `delta`/`generalize` proof; the surrogate arithmetic is hidden in the irreducible `c32of`.
+  * `Step`/`WStep`/`FailNow`  one model iteration at a position given as a list (`a.toList.drop i = s`):
+                         `step_plain`, `step_esc`, `fail_esc`, `fail_u_badhex`, `step_u_single`, `step_u_pair`,
+                         `wstep_u_pair`, `fail_u_pair_badhex`, `fail_u_pair_nobs`.
+  * `Shift`              `closeQ` / `drop` / no control character along one unit.
+  * `sb_step`            one step of `Spec.stringBody` classified (`SBStep`) together with the model's behaviour.
+  * `acc_main`           accepted strings, any accumulator / scan position / output prefix (`AccOK`).
+  * `rej_main`           rejected strings, any accumulator and either state of the `outside` latch (`Bad`);
+                         strong induction on the fuel, with `ahead` = the model one `\uXXXX` unit ahead of the
+                         specification (it combines `\uD8xx\uXXXX` without checking the second unit).
+Axioms: `propext`, `Classical.choice`, `Quot.sound`.
 -/
 namespace SJ.StrLex
 open SJ SJ.Generated SJ.Tables SJ.Escape SJ.ParseDefs
@@ -697,4 +711,378 @@ theorem closeQ_lt : ∀ (n : Nat) (s : List UInt8) (d : Nat), s.length ≤ n →
             have := ih r d' (by omega) hq
             omega
 
+
+/-! ## accepted strings -/
+
+/-- what `StrFacts.acc` says, for an arbitrary accumulator, scan position and output prefix -/
+def AccOK (s acc0 dec rest : List UInt8) : Prop :=
+  ∃ d tail, closeQ s = some d ∧ rest = s.drop (d + 1) ∧ (∀ j, j < d → ¬ s.getD j 0 < 0x20) ∧
+    dec = acc0.reverse ++ tail ∧
+    ∀ (a : Bytes) (start lim i fuel : Nat) (out : Bytes), a.toList.drop i = s → (i + d) - start < lim → d < fuel →
+      decodeStringGo a start lim fuel i out = some (out ++ tail.toArray, i + d)
+
+theorem AccOK.base (r acc0 : List UInt8) : AccOK (34 :: r) acc0 acc0.reverse r := by
+  refine ⟨0, [], ?_, rfl, ?_, by simp, ?_⟩
+  · rw [closeQ.eq_def]; simp
+  · intro j hj; omega
+  · intro a start lim i fuel out hd hl hf
+    obtain ⟨f, rfl⟩ : ∃ f, fuel = f + 1 := ⟨fuel - 1, by omega⟩
+    have g0 : a.getD i 0 = 34 := by simpa using getD_of_drop hd 0
+    rw [go_succ]
+    unfold goBody
+    rw [if_neg (by omega)]
+    simp [g0]
+
+theorem AccOK.lift {s t u acc0 dec rest : List UInt8} {k : Nat} (hs : Shift s t k) (hk : 0 < k) (hst : Step s k u)
+    (h : AccOK t (u.reverse ++ acc0) dec rest) : AccOK s acc0 dec rest := by
+  obtain ⟨d, tail, hcq, hrest, hnc, hdec, hgo⟩ := h
+  refine ⟨d + k, u ++ tail, ?_, ?_, ?_, ?_, ?_⟩
+  · rw [hs.cq, hcq]; rfl
+  · rw [hrest, hs.dr, List.drop_drop]; congr 1; omega
+  · intro j hj
+    by_cases hjk : j < k
+    · exact hs.nc j hjk
+    · have := hnc (j - k) (by omega)
+      rw [hs.getD, show k + (j - k) = j by omega] at this
+      exact this
+  · rw [hdec]; simp
+  · intro a start lim i fuel out hd hl hf
+    obtain ⟨f, rfl⟩ : ∃ f, fuel = f + 1 := ⟨fuel - 1, by omega⟩
+    rw [hst a start lim i f out hd, if_neg (by omega)]
+    have hd' : a.toList.drop (i + k) = t := by rw [hs.dr]; exact drop_add hd k
+    rw [hgo a start lim (i + k) f (out ++ u.toArray) hd' (by omega) (by omega)]
+    simp only [Option.some.injEq, Prod.mk.injEq]
+    constructor
+    · simp
+    · omega
+
+
+/-! ## the units the specification and the model walk over -/
+
+/-- `s` reaches `t` by one or more precise model steps which append `u` in total -/
+inductive Chain : List UInt8 → List UInt8 → List UInt8 → Prop
+  | one {s t u : List UInt8} {k : Nat} : 0 < k → Shift s t k → Step s k u → Chain s t u
+  | cons {s t t' u u' : List UInt8} {k : Nat} : 0 < k → Shift s t k → Step s k u → Chain t t' u' → Chain s t' (u ++ u')
+
+/-- one step of `Spec.stringBody (fuel+1) · acc o`, with what the model does on the same unit -/
+inductive SBStep (fuel : Nat) (acc : List UInt8) (o : Bool) : List UInt8 → Spec.Out (List UInt8) → Prop
+  | nil : SBStep fuel acc o [] .rej
+  | quote (r : List UInt8) : SBStep fuel acc o (34 :: r) (if o then .out else .acc acc.reverse r)
+  | ctrl (c : UInt8) (r : List UInt8) : (c == 34) = false → c < 0x20 → SBStep fuel acc o (c :: r) .rej
+  | bsEnd : SBStep fuel acc o [92] .rej
+  | badEsc (e : UInt8) (r' : List UInt8) : (e == 117) = false → escapeSpec e = 0 → SBStep fuel acc o (92 :: e :: r') .rej
+  | badHex (r' : List UInt8) : Spec.hex4 r' = none → SBStep fuel acc o (92 :: 117 :: r') .rej
+  | unit (s t u : List UInt8) : Chain s t u → SBStep fuel acc o s (Spec.stringBody fuel t (u.reverse ++ acc) o)
+  | latchUnit (s t u : List UInt8) : Chain s t u → SBStep fuel acc o s (Spec.stringBody fuel t acc true)
+  | high (r' t : List UInt8) (cu : Nat) : Spec.hex4 r' = some (cu, t) → (0xD800 ≤ cu ∧ cu < 0xDC00) →
+      (∀ r3 lo r4, t = 92 :: 117 :: r3 → Spec.hex4 r3 = some (lo, r4) → ¬ (0xDC00 ≤ lo ∧ lo < 0xE000)) →
+      SBStep fuel acc o (92 :: 117 :: r') (Spec.stringBody fuel t acc true)
+
+theorem escapeSpec_ge : ∀ e : UInt8, escapeSpec e ≠ 0 → ¬ e < 0x20 := forall_u8 (by decide +kernel)
+
+theorem plainChain {c : UInt8} {r : List UInt8} (h1 : (c == 34) = false) (h2 : (c == 92) = false) (h3 : ¬ c < 0x20) :
+    Chain (c :: r) r [c] := Chain.one (by decide) (Shift.plain h1 h2 h3) (step_plain h1 h2)
+
+theorem highChain {c : UInt8} {r : List UInt8} (hc : 0x80 ≤ c) : Chain (c :: r) r [c] := by
+  obtain ⟨_, f1, f2, f3⟩ := high_facts c (UInt8.not_lt.mpr hc)
+  exact plainChain f1 f3 f2
+
+theorem Chain.snoc1 {c : UInt8} {r t u : List UInt8} (hc : 0x80 ≤ c) (h : Chain r t u) : Chain (c :: r) t ([c] ++ u) := by
+  obtain ⟨_, f1, f2, f3⟩ := high_facts c (UInt8.not_lt.mpr hc)
+  exact Chain.cons (by decide) (Shift.plain f1 f3 f2) (step_plain f1 f3) h
+
+theorem sb_step (fuel : Nat) (s acc : List UInt8) (o : Bool) :
+    SBStep fuel acc o s (Spec.stringBody (fuel + 1) s acc o) := by
+  match s with
+  | [] => rw [sb_nil]; exact .nil
+  | c :: r =>
+    by_cases h34 : c = 34
+    · subst h34; rw [sb_quote]; exact .quote r
+    have h34' : (c == 34) = false := by simpa using h34
+    by_cases hctl : c < 0x20
+    · rw [sb_ctrl _ _ _ _ _ h34' hctl]; exact .ctrl c r h34' hctl
+    by_cases h92 : c = 92
+    · subst h92
+      match r with
+      | [] => rw [sb_bs_end]; exact .bsEnd
+      | e :: r' =>
+        by_cases he : e = 117
+        · subst he
+          cases h : Spec.hex4 r' with
+          | none => rw [sb_u_none _ _ _ _ h]; exact .badHex r' h
+          | some p =>
+            obtain ⟨cu, t⟩ := p
+            by_cases hh : 0xD800 ≤ cu ∧ cu < 0xDC00
+            · by_cases hp : ∃ r3 lo r4, t = 92 :: 117 :: r3 ∧ Spec.hex4 r3 = some (lo, r4) ∧ (0xDC00 ≤ lo ∧ lo < 0xE000)
+              · obtain ⟨r3, lo, r4, rfl, h2, hl⟩ := hp
+                rw [sb_u_pair _ _ _ _ _ _ _ _ h hh h2 hl]
+                exact .unit _ _ _ (Chain.one (by decide) ((Shift.u h).trans (Shift.u h2)) (step_u_pair h hh h2 hl))
+              · rw [sb_u_latch _ _ _ _ _ _ h hh (fun r3 lo r4 e1 e2 e3 => hp ⟨r3, lo, r4, e1, e2, e3⟩)]
+                exact .high r' t cu h hh (fun r3 lo r4 e1 e2 e3 => hp ⟨r3, lo, r4, e1, e2, e3⟩)
+            · obtain ⟨bs, hbs, hst⟩ := step_u_single h hh
+              by_cases hl : 0xDC00 ≤ cu ∧ cu < 0xE000
+              · rw [sb_u_low _ _ _ _ _ _ h hl]
+                exact .latchUnit _ _ _ (Chain.one (by decide) (Shift.u h) hst)
+              · rw [sb_u_single _ _ _ _ _ _ h hh hl]
+                rw [hbs hl] at hst
+                exact .unit _ _ _ (Chain.one (by decide) (Shift.u h) hst)
+        · have he' : (e == 117) = false := by simpa using he
+          rw [sb_esc _ _ _ _ _ he']
+          by_cases hm : escapeSpec e = 0
+          · rw [if_pos hm]; exact .badEsc e r' he' hm
+          · rw [if_neg hm]
+            exact .unit _ _ [escapeSpec e] (Chain.one (by decide) (Shift.pair (escapeSpec_ge e hm)) (step_esc he' hm))
+    have h92' : (c == 92) = false := by simpa using h92
+    by_cases hlt : c < 0x80
+    · rw [stringBody_plain _ _ _ _ _ h92' h34' hctl hlt]
+      exact .unit _ _ [c] (plainChain h34' h92' hctl)
+    · rw [sb_high _ _ _ _ _ hlt]
+      have hc : 0x80 ≤ c := UInt8.not_lt.mp hlt
+      by_cases h0 : Spec.utf8Len (c :: r) = 0
+      · rw [if_pos h0]
+        exact .latchUnit _ _ [c] (highChain hc)
+      · rw [if_neg h0]
+        rcases utf8Len_cases c r hlt h0 with ⟨b1, r', rfl, hn, h1, _⟩ | ⟨b1, b2, r', rfl, hn, h1, h2, _⟩ |
+          ⟨b1, b2, b3, r', rfl, hn, h1, h2, h3, _⟩
+        · rw [hn]
+          exact .unit _ _ _ (Chain.snoc1 hc (highChain h1))
+        · rw [hn]
+          exact .unit _ _ _ (Chain.snoc1 hc (Chain.snoc1 h1 (highChain h2)))
+        · rw [hn]
+          exact .unit _ _ _ (Chain.snoc1 hc (Chain.snoc1 h1 (Chain.snoc1 h2 (highChain h3))))
+
+
+theorem Shift.length_lt {s t : List UInt8} {k : Nat} (h : Shift s t k) (hk : 0 < k) : t.length < s.length := by
+  have hne : s ≠ [] := by
+    intro he
+    have := h.nc 0 hk
+    rw [he] at this
+    exact this (by decide)
+  have : 0 < s.length := List.length_pos_iff.mpr hne
+  rw [h.dr, List.length_drop]
+  omega
+
+theorem Chain.length_lt {s t u : List UInt8} (h : Chain s t u) : t.length < s.length := by
+  induction h with
+  | one hk hs _ => exact hs.length_lt hk
+  | cons hk hs _ _ ih => exact Nat.lt_trans ih (hs.length_lt hk)
+
+theorem AccOK.chain {s t u : List UInt8} (h : Chain s t u) : ∀ {acc0 dec rest : List UInt8},
+    AccOK t (u.reverse ++ acc0) dec rest → AccOK s acc0 dec rest := by
+  induction h with
+  | one hk hs hst => intro acc0 dec rest h; exact AccOK.lift hs hk hst h
+  | cons hk hs hst _ ih =>
+    intro acc0 dec rest h
+    rw [List.reverse_append, List.append_assoc] at h
+    exact AccOK.lift hs hk hst (ih h)
+
+/-- in latched mode nothing is accepted -/
+theorem sb_latched_not_acc : ∀ (fuel : Nat) (s acc dec rest : List UInt8),
+    Spec.stringBody fuel s acc true ≠ .acc dec rest := by
+  intro fuel
+  induction fuel with
+  | zero => intro s acc dec rest; rw [sb_zero]; intro h; cases h
+  | succ fuel ih =>
+    intro s acc dec rest h
+    have st := sb_step fuel s acc true
+    generalize Spec.stringBody (fuel + 1) s acc true = R at st h
+    cases st with
+    | nil => cases h
+    | quote r => cases h
+    | ctrl => cases h
+    | bsEnd => cases h
+    | badEsc => cases h
+    | badHex => cases h
+    | unit _ t u _ => exact ih _ _ _ _ h
+    | latchUnit _ t u _ => exact ih _ _ _ _ h
+    | high _ t _ _ _ _ => exact ih _ _ _ _ h
+
+theorem acc_main : ∀ (fuel : Nat) (s acc0 dec rest : List UInt8),
+    Spec.stringBody fuel s acc0 false = .acc dec rest → AccOK s acc0 dec rest := by
+  intro fuel
+  induction fuel with
+  | zero => intro s acc dec rest h; rw [sb_zero] at h; cases h
+  | succ fuel ih =>
+    intro s acc0 dec rest h
+    have st := sb_step fuel s acc0 false
+    generalize Spec.stringBody (fuel + 1) s acc0 false = R at st h
+    cases st with
+    | nil => cases h
+    | quote r =>
+      simp only [Bool.false_eq_true, if_false, Spec.Out.acc.injEq] at h
+      obtain ⟨rfl, rfl⟩ := h
+      exact AccOK.base r acc0
+    | ctrl => cases h
+    | bsEnd => cases h
+    | badEsc => cases h
+    | badHex => cases h
+    | unit _ t u hc => exact AccOK.chain hc (ih _ _ _ _ h)
+    | latchUnit _ t u _ => exact absurd h (sb_latched_not_acc _ _ _ _ _)
+    | high _ t _ _ _ _ => exact absurd h (sb_latched_not_acc _ _ _ _ _)
+
+
+/-! ## rejected strings -/
+
+/-- the model fails from this position, whatever the array before it, the fuel, the limit and the output so far -/
+def MFail (s : List UInt8) : Prop :=
+  ∀ (a : Bytes) (start lim i fuel : Nat) (out : Bytes), a.toList.drop i = s →
+    decodeStringGo a start lim fuel i out = none
+
+/-- the conclusion of `StrFacts.rej` at an arbitrary position -/
+def Bad (s : List UInt8) : Prop :=
+  closeQ s = none ∨ ∃ d, closeQ s = some d ∧ ((∃ j, j < d ∧ s.getD j 0 < 0x20) ∨ MFail s)
+
+theorem MFail.of_failNow {s : List UInt8} (h : FailNow s) : MFail s := by
+  intro a start lim i fuel out hd
+  cases fuel with
+  | zero => rfl
+  | succ f => exact h a start lim i f out hd
+
+theorem MFail.of_wstep {s : List UInt8} {k : Nat} (hw : WStep s k) (ht : MFail (s.drop k)) : MFail s := by
+  intro a start lim i fuel out hd
+  cases fuel with
+  | zero => rfl
+  | succ f =>
+    rcases hw a start lim i f out hd with h | ⟨out', h⟩
+    · exact h
+    · rw [h]; exact ht a start lim (i + k) f out' (drop_add hd k)
+
+theorem Bad.of_mfail {s : List UInt8} (h : MFail s) : Bad s := by
+  cases hq : closeQ s with
+  | none => exact Or.inl hq
+  | some d => exact Or.inr ⟨d, hq, Or.inr h⟩
+
+theorem Bad.lift {s t : List UInt8} {k : Nat} (hs : Shift s t k) (hw : WStep s k) (hb : Bad t) : Bad s := by
+  rcases hb with hn | ⟨d, hd, hb⟩
+  · left; rw [hs.cq, hn]; rfl
+  · right
+    refine ⟨d + k, by rw [hs.cq, hd]; rfl, ?_⟩
+    rcases hb with ⟨j, hj, hc⟩ | hm
+    · left
+      refine ⟨k + j, by omega, ?_⟩
+      rw [← hs.getD]; exact hc
+    · right
+      apply MFail.of_wstep hw
+      rw [← hs.dr]; exact hm
+
+theorem Bad.chain {s t u : List UInt8} (h : Chain s t u) : Bad t → Bad s := by
+  induction h with
+  | one hk hs hst => exact Bad.lift hs hst.w
+  | cons hk hs hst _ ih => exact fun hb => Bad.lift hs hst.w (ih hb)
+
+/-- the claim at one fuel value -/
+def Q (fuel : Nat) : Prop :=
+  ∀ (s acc : List UInt8) (o : Bool), s.length < fuel → Spec.stringBody fuel s acc o = .rej → Bad s
+
+/-- the model one `\\uXXXX` unit ahead of the specification -/
+theorem ahead {fuel : Nat} (ih : Q fuel) {r' t acc : List UInt8} {o : Bool} {cu : Nat}
+    (hlen : (92 :: 117 :: r').length < fuel + 1)
+    (h : Spec.stringBody (fuel + 1) (92 :: 117 :: r') acc o = .rej) (hx : Spec.hex4 r' = some (cu, t)) : Bad t := by
+  have hsh := Shift.u hx
+  have hlt := hsh.length_lt (by decide)
+  by_cases hh : 0xD800 ≤ cu ∧ cu < 0xDC00
+  · by_cases hp : ∃ r3 lo r4, t = 92 :: 117 :: r3 ∧ Spec.hex4 r3 = some (lo, r4) ∧ (0xDC00 ≤ lo ∧ lo < 0xE000)
+    · obtain ⟨r3, lo, r4, rfl, h2, hl⟩ := hp
+      rw [sb_u_pair _ _ _ _ _ _ _ _ hx hh h2 hl] at h
+      have hsh2 := Shift.u h2
+      have hlt2 := hsh2.length_lt (by decide)
+      have hb := ih r4 _ o (by omega) h
+      obtain ⟨bs, _, hst⟩ := step_u_single h2 (by omega)
+      exact Bad.lift hsh2 hst.w hb
+    · rw [sb_u_latch _ _ _ _ _ _ hx hh (fun r3 lo r4 e1 e2 e3 => hp ⟨r3, lo, r4, e1, e2, e3⟩)] at h
+      exact ih t _ true (by omega) h
+  · by_cases hl : 0xDC00 ≤ cu ∧ cu < 0xE000
+    · rw [sb_u_low _ _ _ _ _ _ hx hl] at h
+      exact ih t _ true (by omega) h
+    · rw [sb_u_single _ _ _ _ _ _ hx hh hl] at h
+      exact ih t _ o (by omega) h
+
+theorem rej_main : ∀ fuel, Q fuel := by
+  intro fuel
+  induction fuel using Nat.strongRecOn with
+  | _ n IH =>
+    match n, IH with
+    | 0, _ => intro s acc o hl; omega
+    | fuel + 1, IH =>
+      intro s acc o hlen h
+      have st := sb_step fuel s acc o
+      generalize Spec.stringBody (fuel + 1) s acc o = R at st h
+      cases st with
+      | nil => left; rw [closeQ.eq_def]
+      | quote r => cases o <;> cases h
+      | ctrl c r h34 hc =>
+        have h92 : (c == 92) = false := by
+          have : ∀ c : UInt8, c < 0x20 → (c == 92) = false := forall_u8 (by decide +kernel)
+          exact this c hc
+        have hq : closeQ (c :: r) = (closeQ r).map (· + 1) := by
+          rw [closeQ.eq_def]; simp only [h34, h92, Bool.false_eq_true, if_false]
+        cases hr : closeQ r with
+        | none => left; rw [hq, hr]; rfl
+        | some d => right; exact ⟨d + 1, by rw [hq, hr]; rfl, Or.inl ⟨0, by omega, hc⟩⟩
+      | bsEnd => left; rw [closeQ.eq_def]; simp
+      | badEsc e r' he hm => exact Bad.of_mfail (MFail.of_failNow (fail_esc he hm))
+      | badHex r' hx => exact Bad.of_mfail (MFail.of_failNow (fail_u_badhex hx))
+      | unit _ t u hc =>
+        have := hc.length_lt
+        exact Bad.chain hc (IH fuel (by omega) t _ o (by omega) h)
+      | latchUnit _ t u hc =>
+        have := hc.length_lt
+        exact Bad.chain hc (IH fuel (by omega) t _ true (by omega) h)
+      | high r' t cu hx hh hno =>
+        have hsh := Shift.u hx
+        have hlt := hsh.length_lt (by decide)
+        by_cases ht : t.getD 0 0 = 92 ∧ t.getD 1 0 = 117
+        · match t, ht with
+          | [], ht => exact absurd ht.1 (by decide)
+          | [x], ht => exact absurd ht.2 (by simp)
+          | x :: y :: r3, ht =>
+            obtain ⟨rfl, rfl⟩ : x = 92 ∧ y = 117 := ht
+            cases h2 : Spec.hex4 r3 with
+            | none => exact Bad.of_mfail (MFail.of_failNow (fail_u_pair_badhex hx hh h2))
+            | some p =>
+              obtain ⟨lo, r4⟩ := p
+              match fuel, IH, hlen, h, hlt with
+              | 0, _, hlen, _, hlt => simp only [List.length_cons] at hlen hlt; omega
+              | f + 1, IH, hlen, h, hlt =>
+                have hb : Bad r4 := ahead (IH f (by omega)) (by omega) h h2
+                exact Bad.lift (hsh.trans (Shift.u h2)) (wstep_u_pair hx hh h2) hb
+        · exact Bad.of_mfail (MFail.of_failNow (fail_u_pair_nobs hx hh
+            (by by_cases h0 : t.getD 0 0 = 92
+                · right; intro h1; exact ht ⟨h0, h1⟩
+                · left; exact h0)))
+
+/-! ## the two fields of `StrFacts` -/
+
+theorem strFacts_acc (fuel : Nat) (s dec rest : List UInt8) (h : Spec.stringBody fuel s [] false = .acc dec rest) :
+    ∃ d, closeQ s = some d ∧ rest = s.drop (d + 1) ∧ (∀ j, j < d → ¬ (s.getD j 0 < 0x20)) ∧
+      ∀ (a : Bytes) (start lim : Nat), a.toList.drop start = s → d < lim →
+        decodeString a start lim = some (dec.toArray, start + d) := by
+  obtain ⟨d, tail, hcq, hrest, hnc, hdec, hgo⟩ := acc_main fuel s [] dec rest h
+  refine ⟨d, hcq, hrest, hnc, ?_⟩
+  intro a start lim hd hl
+  have hlt := closeQ_lt s.length s d (Nat.le_refl _) hcq
+  have hlen : s.length ≤ a.size := by rw [← hd]; simp
+  unfold decodeString
+  rw [hgo a start lim start (a.size + 64) #[] hd (by omega) (by omega), hdec]
+  simp
+
+theorem strFacts_rej (fuel : Nat) (s : List UInt8) (hlen : s.length < fuel)
+    (h : Spec.stringBody fuel s [] false = .rej) :
+    closeQ s = none ∨ ∃ d, closeQ s = some d ∧
+      ((∃ j, j < d ∧ s.getD j 0 < 0x20) ∨
+       ∀ (a : Bytes) (start lim : Nat), a.toList.drop start = s → decodeString a start lim = none) := by
+  rcases rej_main fuel s [] false hlen h with hn | ⟨d, hd, hb⟩
+  · exact Or.inl hn
+  · refine Or.inr ⟨d, hd, ?_⟩
+    rcases hb with hc | hm
+    · exact Or.inl hc
+    · exact Or.inr (fun a start lim hdr => hm a start lim start (a.size + 64) #[] hdr)
+
 end SJ.StrLex
+
+namespace SJ.ParseDefs
+
+/-- **`StrFacts`**: the RFC 8259 string production against `closeQ` and the model of the assembly's decoder. -/
+theorem strFacts : StrFacts := ⟨SJ.StrLex.strFacts_acc, SJ.StrLex.strFacts_rej⟩
+
+end SJ.ParseDefs
